@@ -44,3 +44,15 @@ Theorem C05_removals_only_marked_all_schedules : forall g p sched evs w i sts,
   own g w i = true /\ In (EClean w i true) evs /\ forall x, In x sts -> marked g i x.
 Proof. exact removals_only_marked. Qed.
 Print Assumptions C05_removals_only_marked_all_schedules.
+
+(* ---- the pools themselves, for EVERY graph, pool population, schedule and outcome assignment, any number of workers
+        (Proofs/TraverseKeep.v): a state that no node marks for removal and that is in a pool (own pool of any worker or the
+        shared pool; there initially or added by a passing test) at some point of the run is in that pool at every later
+        point - "setup produced for reuse remains available" ---- *)
+From I2N Require Import Proofs.TraverseKeep.
+Theorem C05_unmarked_states_persist : forall g p sched1 sched2 l x,
+  unmarked_b g x = true ->
+  has_state (pool (fst (run_schedule g (init_state g p) sched1))) l x = true ->
+  has_state (pool (fst (run_schedule g (init_state g p) (sched1 ++ sched2)))) l x = true.
+Proof. intros g p sched1 sched2 l x H. apply unmarked_states_persist. now apply unmarked_b_sound. Qed.
+Print Assumptions C05_unmarked_states_persist.
